@@ -516,7 +516,7 @@ def run(ck: Check):
     ck.level = "proof"
     obligations, discharged, axioms = standard_proof_step(ck, extra_targets=["Model/ConvCorr.vo"])
     r = ck.rng
-    N = ck.n(1, 8)
+    N = ck.n(1, 20)
     ops, meta = [], []
 
     def add(op, **m):
